@@ -61,7 +61,7 @@ def _flat(results):
     for r in results:
         if "threads" in r:
             out += r["threads"]
-        else:
+        elif "forgot" not in r:
             out.append(r)
     return out
 
@@ -73,6 +73,8 @@ def _flat_ops(ops):
             out.append((op[1], op[2], "seq"))
         elif op[0] == "parse_path":
             out.append((op[1], op[2], f"by path, slot {op[3]}"))
+        elif op[0] == "forget":
+            continue
         else:
             out += [(ti, sel, f"thread/{op[2]}") for ti, sel in op[1]]
     return out
@@ -326,6 +328,12 @@ def drive_machine(ctx: Ctx) -> None:
                 self.case["texts"].append(text)
             ctx.classes[f"variant_{kind}"] += 1
 
+        @precondition(lambda self: len(self.case["ops"]) >= 2 and self.case["ops"][-1] != ["forget"])
+        @rule()
+        def forget(self):
+            # the client lets go of the charts parsed so far
+            self.case["ops"].append(["forget"])
+
         def _sel(self, data, ti):
             if data.draw(st.integers(0, 2)) != 0:
                 return None
@@ -445,6 +453,31 @@ def fixed_cases(ctx: Ctx):
                                         ["threads", [[1, None], [2, None], [0, None]], "coop",
                                          [[0, run], [1, run + 3], [2, run]]]]}
     yield {"texts": texts2, "ops": [["threads", [[0, None], [1, None], [2, None], [1, None]], "os", []]]}
+    # charts with LONG tempo maps of equal length but other ticks, alternating with charts of that kind that fail
+    # after their [SyncTrack] was read (their objects are released at once, so that a later chart's objects come to
+    # lie at the same addresses): whatever a parse keeps about an object must not outlive the object
+    def long_map(n, step, off, fail=False, extra=0):
+        sync = [[0, "TS", 4]] + [[(k * step + off) if k else 0, "B", 60000 + 1000 * ((k * 7 + extra) % 50)] for k in range(n)]
+        last = (n - 1) * step + off
+        inside = [k * step + off + step // 2 for k in (3, 11, 12, 20, 31, n - 2)]
+        ev = [[t, f"section s{t}"] for t in inside] + [[last + 10, "section a"], [last + 500, "section b"]] + \
+             ([[5, "section early"]] if fail else [])
+        notes = [[t + 1, "N", j % 5, step] for j, t in enumerate(inside)] + [[last + 20, "N", 0, 0], [last + 400, "N", 1, 30]]
+        return S.render({"res": 192, "sync": sync, "events": ev, "tracks": {"ExpertSingle": notes}})
+    longs = [long_map(40, 100, 0), long_map(40, 100, 7, fail=True), long_map(40, 90, 3), long_map(40, 110, 1, fail=True),
+             long_map(40, 100, 50, extra=3), long_map(33, 64, 5), long_map(33, 64, 9, fail=True), long_map(33, 70, 0)]
+    nl = len(longs)
+    yield {"texts": longs, "ops": [["parse", i % nl, None] for i in range(2 * nl)]}
+    yield {"texts": longs, "ops": [["parse", i, None] for i in (1, 0, 3, 2, 1, 4, 3, 0, 6, 5, 6, 7, 6, 5)]}
+    yield {"texts": longs, "ops": [["parse", i, None] for i in (1, 3, 1, 3, 0, 1, 2, 3, 4, 6, 7, 6, 5)]}
+    # ... and a client that lets go of each chart before it parses the next one
+    seq = []
+    for i in (0, 2, 0, 4, 2, 1, 0, 5, 7, 5, 6, 7, 2, 4, 0):
+        seq += [["parse", i, None], ["forget"]]
+    yield {"texts": longs, "ops": seq}
+    # (where an object comes to lie is up to the allocator: many short-lived charts make a meeting likely)
+    cyc = (0, 2, 4, 2, 0, 4, 4, 0, 5, 7, 5, 2)
+    yield {"texts": longs, "ops": [x for r in range(8) for i in cyc for x in (["parse", i, None], ["forget"])]}
     # numbers beyond the interpreter's limit for str -> int conversion (4300 digits), one chart per place where the
     # format carries a number.  Each of them is refused when parsed alone; what one of them makes a parser do
     # (raise a process-wide limit, say) must not decide the fate of the next
